@@ -357,8 +357,8 @@ def neighbour_body(ctx, case):
 
 
 LAWS = [
-    given_law("order_independence", neighbour_cases(), neighbour_body, {"quick": 3, "thorough": 12}, shards={"quick": 4, "thorough": 16}),
+    given_law("order_independence", neighbour_cases(), neighbour_body, {"quick": 3, "thorough": 20}, shards={"quick": 6, "thorough": 16}),
     given_law("distinct_seeds", seedset_cases(), seedset_body, {"quick": 25, "thorough": 100}, shards={"quick": 2, "thorough": 8}),
-    machine_law("history", make_machine, replay_history, {"quick": 40, "thorough": 150}, {"quick": 25, "thorough": 40}, shards={"quick": 4, "thorough": 16}),
-    given_law("reproduce", repro_cases(), repro_body, {"quick": 60, "thorough": 300}, shards={"quick": 2, "thorough": 16}),
+    machine_law("history", make_machine, replay_history, {"quick": 60, "thorough": 400}, {"quick": 25, "thorough": 40}, shards={"quick": 6, "thorough": 16}),
+    given_law("reproduce", repro_cases(), repro_body, {"quick": 80, "thorough": 600}, shards={"quick": 4, "thorough": 16}),
 ]
